@@ -457,6 +457,16 @@ def run_case(acc, rnd, tier, case):
             acc.violation('C10:code-after-property-failure', 'after meta-event %d made the property final the monitored '
                           'statechart went on: log tail %r (meta-events seen %d)' % (kth, [x[:2] for x in tail[-4:]], nm), w)
             return
+        # the step that was cut short did start: the interpreter's time is the one its 'step started' announced (monitors bound
+        # to it - synchronised clocks - read it after the failure has been caught)
+        started = [e[2].get('time') for e in pr3.log if e[0] == 'M' and e[1] == 'step started']
+        if started and not ticking:
+            acc.count('time_after_failed_property_checked')
+            if it3.time != started[-1]:
+                acc.violation('C10:time-after-property-failure', "the call in which the property statechart failed (meta-event %d) announced "
+                              "'step started' with time %r; after PropertyStatechartError was caught Interpreter.time is %r"
+                              % (kth, started[-1], it3.time), w)
+                return
         # the failed monitor is taken off and the interpreter is used further: the remaining listeners go on receiving
         it3.detach(lst3)
         del pr3.log[:]
